@@ -212,7 +212,7 @@ def check_contract_case(args):
         for prof in c.profiles:
             built = T._G['builds'].get((ci, prof))
             if built is None or not built.ok:
-                res['unexplored'].append(f'{prof}: build failed: ' + (built.log[-300:] if built else ''))
+                res['violations'].append({'what': 'valid program does not compile', 'variant': prof, 'log': (built.log[-600:] if built else '')})
                 continue
             code = built.bytecode
             data, env, _ = c.make_inputs()
